@@ -1,6 +1,10 @@
 import Martian.Lexer
 import Martian.Regex
+import Martian.LexerId
+import Martian.FormatExp
+import Martian.LexerLRGen
 import Martian.Tokenizer
+import Martian.LexerActions
 import Gen.Facts
 import Driver.Util
 
@@ -41,8 +45,128 @@ def lexStr (b : Bytes) : String :=
   listStr (cms.map fun c => s!"{c.1}:{c.2.1}:{hexOfBytes c.2.2}") ++ " | " ++
   toString (b.length - raw.2.length)
 
+/-! action level (`Martian.LexerActions`) -/
+open Martian.LexerActions in
+def siteOf : String → Option Site
+  | "float32" => some .float32 | "threads" => some .threads | "mem_gb" => some .memGb | "vmem_gb" => some .vmemGb
+  | "special" => some .special | "include" => some .incl | "help" => some .help | "outname" => some .outName
+  | "mapkey" => some .mapKey | "src" => some .src | "valexp" => some .valExp
+  | _ => none
+
+open Martian.LexerActions in
+def kindOf : String → Option Kind
+  | "NUM_INT" => some .numInt | "NUM_FLOAT" => some .numFloat | "LITSTRING" => some .litString
+  | _ => none
+
+open Martian.LexerActions in
+def valStr : Val → String
+  | .int i => "int " ++ toString i
+  | .float _ => "float"
+  | .f32 (some i) => "f32 " ++ toString i
+  | .f32 none => "f32 ?"
+  | .str b => "str " ++ hexOfBytes b
+  | .src p args => "src " ++ hexOfBytes p ++ " " ++ hexList args
+
+def actValStr : Action Martian.LexerActions.Val → String
+  | .ok v => "ok " ++ valStr v
+  | .error => "error"
+  | .panic => "panic"
+
+def actIntStr : Action Int → String
+  | .ok v => "ok " ++ toString v
+  | .error => "error"
+  | .panic => "panic"
+
+/-! Comparison of C09's reduced tokenizer model (`Martian.FormatExp.lexAll`, value expressions
+only) with the full tokenizer model. -/
+
+def nameOfId (id : Nat) : String :=
+  match Gen.tokIds.find? (fun p => p.2 == id) with
+  | some p => p.1
+  | none => ""
+
+/-- the `FormatExp.Tok` a token of the full model corresponds to; `none` = the
+reduced model has no such token (`@include`, INVALID) -/
+def toFx (t : Martian.Tokenizer.Tok) : Option Martian.FormatExp.Tok :=
+  if t.id < 128 then some (.punct (UInt8.ofNat t.id))
+  else
+    let n := nameOfId t.id
+    if n == "LITSTRING" then some (.str t.text)
+    else if n == "NUM_INT" then some (.int t.text)
+    else if n == "NUM_FLOAT" then some (.float t.text)
+    else if n == "ID" then some (.id t.text)
+    else if n == "TRUE" then some .kTrue
+    else if n == "FALSE" then some .kFalse
+    else if n == "NULL" then some .kNull
+    else if n == "SELF" then some .kSelf
+    else if n == "DEFAULT" then some .kDefault
+    else if n == "INVALID" || n == "" then none
+    else if n == "INCLUDE_DIRECTIVE" then some (.reserved t.text)
+    else if Martian.FormatExp.idTokens.contains n then some (.id t.text)
+    else some (.reserved t.text)
+
+/-- what the reduced model should return according to the full model -/
+def fxExpected (src : Bytes) : Option (List Martian.FormatExp.Tok) :=
+  (Martian.Tokenizer.lexAll src).mapM toFx
+
+/-- is there a byte ≥ 0x80 outside the string literals (per the full model's
+token stream, trivia and the unconsumed rest included)?  The reduced model
+declares such input invalid; the code accepts Unicode white space there and
+ends a comment before a rune decoding to U+FFFD. -/
+def nonAsciiOutsideStrings (src : Bytes) : Bool :=
+  let raw := Martian.Tokenizer.lexAllRaw src
+  raw.2.any (· ≥ 0x80) ||
+  raw.1.any fun t => nameOfId t.id != "LITSTRING" && t.text.any (· ≥ 0x80)
+
+/-- the debug line of the real loop for one event, normalised as the hook does -/
+def evStr : Martian.LexerLR.Event → String
+  | .push s => "P" ++ toString s
+  | .lex tok ch => "L" ++ toString tok ++ "/" ++ toString ch
+  | .reduce n s => "R" ++ toString n ++ "@" ++ toString s
+  | .err s tok => "E" ++ toString s ++ "/" ++ toString tok
+  | .pop s => "X" ++ toString s
+  | .discard tok => "D" ++ toString tok
+
 def handle (op : String) (args : List String) : Option String :=
   match op, args with
+  -- scanner + parser driver: the event trace, the result and the error position
+  | "parse", [s, k] => do
+    let b ← bytesOfHex s
+    let fail : Nat → Bool := match k.toNat? with
+      | some n => fun i => i == n
+      | none => fun _ => false
+    let r := Martian.LexerLR.parseSource fail b
+    let evs := " ".intercalate (r.2.map evStr)
+    match r.1 with
+    | .accept => pure (evs ++ " =0")
+    | .actionError => pure (evs ++ " =1")
+    | .syntaxError i =>
+      let p := Martian.LexerLR.posOf b i
+      pure (evs ++ " =1 @" ++ toString p.1 ++ ":" ++ toString p.2)
+    | .panic => pure (evs ++ " PANIC")
+    | .outOfFuel => pure (evs ++ " OUT-OF-FUEL")
+  | "failprods", [] => pure (" ".intercalate (Gen.mmFailProds.map toString))
+  -- FormatExp.lexAll (C09's reduced tokenizer) vs the full tokenizer model
+  | "fxcmp", [s] => do
+    let b ← bytesOfHex s
+    let same := Martian.FormatExp.lexAll b == fxExpected b
+    pure ((if same then "same" else "differ") ++ " " ++ boolStr (nonAsciiOutsideStrings b) ++ " " ++
+      (match Martian.FormatExp.lexAll b with | some l => toString l.length | none => "none") ++ " " ++
+      (match fxExpected b with | some l => toString l.length | none => "none"))
+  -- the hand-written identifier recogniser
+  | "id", [s] => do
+    let b ← bytesOfHex s
+    pure (optTok (matchId b))
+  -- every rune in [0x80, 0x10FFFF] the model takes for white space
+  -- the productions whose semantic action can abort the parse (regenerated fact)
+  -- mmLast mmPrivate mmFlag, number of states and of productions (regenerated facts)
+  | "lrconsts", [] =>
+    pure (s!"{Gen.mmLast} {Gen.mmPrivate} {Gen.mmFlag} " ++
+      toString (Gen.mmPact.foldl (fun a l => a + l.length) 0) ++ " " ++
+      toString (Gen.mmR1.foldl (fun a l => a + l.length) 0))
+  | "unispaces", [] =>
+    pure (" ".intercalate (((List.range 0x110000).filter fun r => r ≥ 0x80 && Martian.Tokenizer.isUniSpace r).map
+      fun r => String.ofList (Nat.toDigits 16 r)))
   | "rules", [] =>
     pure (boolStr (Gen.tokIntRegex == intRuleSrc) ++ " " ++
           boolStr (Gen.tokFloatRegex == floatRuleSrc) ++ " " ++
@@ -114,6 +238,25 @@ def handle (op : String) (args : List String) : Option String :=
     let b ← bytesOfHex s
     let nt := Martian.Tokenizer.nextToken b
     pure (toString nt.1 ++ " " ++ hexOfBytes nt.2)
+  -- action level: `act <site> <kind> <hex token>`; `arr <number of [] pairs>`; `mapdim <inner dims>`;
+  -- `f32u <hex>` = float_32 on a NUM_FLOAT written with the panicking converter
+  | "act", [site, kind, s] => do
+    let st ← siteOf site
+    let k ← kindOf kind
+    let b ← bytesOfHex s
+    pure (actValStr (Martian.LexerActions.act st k b))
+  | "f32u", [s] => do
+    let b ← bytesOfHex s
+    pure (actValStr (Martian.LexerActions.Action.map .f32 (Martian.LexerActions.float32FloatUnchecked b)))
+  | "arr", [n] => do
+    let k ← n.toNat?
+    pure (actIntStr (Martian.LexerActions.arrList k))
+  | "arr0", [n] => do
+    let k ← n.toNat?
+    pure (actIntStr (Martian.LexerActions.arrListUnguarded k))
+  | "mapdim", [n] => do
+    let k ← n.toNat?
+    pure (toString (Martian.LexerActions.mapDim k))
   | _, _ => none
 
 end Driver.C08
